@@ -760,7 +760,7 @@ func (g *g5) journal(maxEntries int) string {
 		kind = "damaged"
 	}
 	nl := "\n"
-	if g.p(12) {
+	if g.p(25) {
 		nl = "\r\n"
 		kind += ".crlf"
 	}
